@@ -105,3 +105,15 @@ CHECKS.update({
    design_ref='DESIGN.md 5 C07', note=NOTE_STD + ' go/types.Eval is modelled on the fragment of decimal literals, + - * / %, unary signs and parentheses; inputs outside it are excluded from the tie (model answers Unmodelled).',
    technique='Coq proof (precedence-climbing parser correct by induction on trees; sign folding / double-negative rewriting as tree transformations preserving value; adjacency freedom) + per-run correspondence'),
 })
+
+CHECKS.update({
+ 'C05': dict(
+   text=('Theorems about the literal models of the two producer goroutines. Lexer (lex.go): for EVERY input and every classification of runes the state machine ends within 2*|input|+4 state functions and sends ordinary tokens followed '
+         'by exactly one terminal token (EOF or error), so Tokens() receives every send and nothing stays blocked (measure argument over the state machine, induction on the inner loops). FOR expander (forexpand.go): for EVERY token stream '
+         'and symbol table, when a pass ends the goroutine has sent at most one terminal token, as the last send, is not left blocked, and Tokens() returns a stream with exactly one terminal token (invariant over the 12 state functions). '
+         'PARTIAL: that the expander pass, the symbol scanner, the parser and the EQU graph / substitution loops never exhaust their linear fuel is not proved (C05_full_statement); the error-xor-result shape of CompileWarrior\'s two return values, '
+         'wall-clock, memory and the goroutine count are runtime facts outside the model. Every run feeds generated inputs (valid, mutated, token soup, invalid UTF-8, NUL, ^Z, CR/LF variants, unterminated lines, EQU cycles with ;assert, half-failing FOR blocks) '
+         'to gmars in worker processes under a watchdog, compares result and token streams with the extracted model, and checks err xor result and the goroutine count before/after.'),
+   design_ref='DESIGN.md 5 C05', note=NOTE_STD + ' Fuel adequacy beyond the lexer, and all runtime behaviour (time, memory, goroutine profile), are covered by the per-run harness only.',
+   technique='Coq proof (measure argument for the lexer state machine; send-protocol invariant for the expander state machine) + per-run correspondence with watchdog, err-xor-result and goroutine-leak monitors'),
+})
